@@ -541,7 +541,15 @@ def dscore(obs, sim, eps=1e-6):
 
     # Check data
     obs = np.atleast_1d(obs).astype(np.float64)
-    sim = np.atleast_2d(sim).astype(np.float64)
+    if obs.ndim > 1:
+        # obs given as [n,1]
+        obs = np.atleast_1d(obs.squeeze())
+
+    sim = np.atleast_1d(sim).astype(np.float64)
+    if sim.ndim == 1:
+        # single member forecasts given as [n]: one forecast per value
+        # (atleast_2d would turn them into one forecast of n members)
+        sim = sim[:, None]
     eps = np.float64(eps)
 
     if sim.ndim != 2:
